@@ -32,6 +32,14 @@ REFERENCE = set(json.loads(
 )["functions"])
 
 
+# Private single-caller helpers of the reference tree whose rules are written
+# against the *inlined* shape (so that "inline method" and "extract method"
+# of exactly this helper are both invisible to the rules).
+FORCE_INLINE = {
+    "sedpack.io.dataset_filler:DatasetFiller._update_infos",
+}
+
+
 def is_reference(fn: FunctionInfo) -> bool:
     return fn.fq in REFERENCE
 
@@ -209,6 +217,7 @@ class Inliner:
         self.counter = 0
         self.inlined: list[str] = []
         self.skipped: list[str] = []
+        self.introduced: dict[str, set[str]] = {}
 
     def candidate(self, caller: FunctionInfo, call: ast.Call):
         targets = [t for t in self.res.resolve_call(caller, call, count=False)
@@ -218,7 +227,8 @@ class Inliner:
         if len(targets) != 1 or others:
             return None
         h = targets[0].fn
-        if is_reference(h) or isinstance(h.node, ast.Lambda) or h is caller:
+        if (is_reference(h) and h.fq not in FORCE_INLINE) or isinstance(
+                h.node, ast.Lambda) or h is caller:
             return None
         if h.module is not caller.module:
             # another module: only when every global name the helper uses
@@ -265,7 +275,14 @@ class Inliner:
     def bind_params(self, h: FunctionInfo, call: ast.Call, suffix: str,
                     caller: FunctionInfo):
         """Statements binding renamed parameters, and the rename mapping."""
-        mapping = {n: f"{n}__{suffix}" for n in _locals_of(h.node)}
+        # helper locals are renamed only where they would capture a name of
+        # the caller
+        caller_names = _locals_of(caller.node) | {
+            n.id for n in ast.walk(caller.node) if isinstance(n, ast.Name)
+        } | self.introduced.setdefault(caller.fq, set())
+        mapping = {n: (f"{n}__{suffix}" if n in caller_names else n)
+                   for n in _locals_of(h.node)}
+        self.introduced[caller.fq] |= set(mapping.values())
         stmts: list[ast.stmt] = []
         reassigned = {n.id for n in ast.walk(h.node) if isinstance(
             n, ast.Name) and isinstance(n.ctx, (ast.Store, ast.Del))}
@@ -316,7 +333,8 @@ class Inliner:
 
     def inline_body(self, caller: FunctionInfo, call: ast.Call,
                     h: FunctionInfo, make_result, generator_ok=False,
-                    result_name: str | None = None):
+                    result_name: str | None = None,
+                    rename_local: dict[str, str] | None = None):
         is_gen = any(isinstance(n, (ast.Yield, ast.YieldFrom))
                      for n in h.body_nodes())
         if is_gen and not generator_ok:
@@ -327,6 +345,9 @@ class Inliner:
         if bound is None:
             return None
         binds, mapping = bound
+        for k, v in (rename_local or {}).items():
+            if k in mapping and v not in mapping.values():
+                mapping[k] = v
         # `t = H(...)` where H always returns its local `v`: let `v` be `t`
         # (no alias temporary), provided `t` is not also a substituted argument
         if result_name is not None and result_name not in mapping.values():
@@ -449,14 +470,28 @@ class Inliner:
                 escapes = any(isinstance(n, (ast.Break, ast.Continue))
                               for b in st.body for n in ast.walk(b))
                 if plain and not escapes:
+                    # a helper that yields its own loop variable: that
+                    # variable simply is the caller's loop variable
+                    rl = {}
+                    yv = ys[0].value
+                    hparams = {x.arg for x in h.node.args.posonlyargs +
+                               h.node.args.args + h.node.args.kwonlyargs}
+                    if isinstance(yv, ast.Name) and yv.id not in hparams:
+                        rl = {yv.id: st.target.id}
                     body = self.inline_body(caller, st.iter, h,
-                                            (lambda e: None), True)
+                                            (lambda e: None), True,
+                                            rename_local=rl)
                     if body is not None:
                         tgt, loop_body = st.target, st.body
 
                         class _Y(ast.NodeTransformer):
 
                             def visit_Expr(self, node):
+                                if isinstance(node.value, ast.Yield) and \
+                                        isinstance(node.value.value, ast.Name) \
+                                        and node.value.value.id == tgt.id:
+                                    return [copy.deepcopy(b) if False else
+                                            _clone(b) for b in loop_body]
                                 if isinstance(node.value, ast.Yield):
                                     return [ast.Assign(
                                         targets=[_clone(tgt)],
@@ -541,9 +576,137 @@ class _PropertyInline(ast.NodeTransformer):
         return node
 
 
+REFERENCE_ATTRS: dict[str, list[str]] = json.loads(
+    (Path(__file__).parent / "reference_functions.json").read_text()
+).get("class_private_attrs", {})
+
+
+def _private_self_attrs(ci) -> set[str]:
+    out = set()
+    for m in ci.methods.values():
+        for n in ast.walk(m.node):
+            if isinstance(n, ast.Attribute) and isinstance(
+                    n.value, ast.Name) and n.value.id == "self" and isinstance(
+                        n.ctx, ast.Store) and n.attr.startswith("_") and \
+                    not n.attr.startswith("__"):
+                out.add(n.attr)
+    return out
+
+
+def normalise_renames(repo: Repo) -> list[str]:
+    """A private attribute of a reference class that vanished while exactly
+    one new private attribute appeared in that class is a rename: the new
+    name is mapped back (everywhere: the new name is known nowhere in the
+    reference tree), so rules keep reading the attribute they know."""
+    log: list[str] = []
+    known = {a for v in REFERENCE_ATTRS.values() for a in v}
+    renames: dict[str, str] = {}
+    for mod in repo.hand_written():
+        for ci in mod.classes.values():
+            ref = REFERENCE_ATTRS.get(ci.fq)
+            if ref is None:
+                continue
+            cur = _private_self_attrs(ci)
+            missing = set(ref) - cur
+            new = cur - set(ref)
+            if len(missing) == 1 and len(new) == 1:
+                a, b = new.pop(), missing.pop()
+                if a not in known and a not in renames:
+                    renames[a] = b
+                    log.append(f"attribute {ci.name}.{a} read as {b} "
+                               "(renamed private attribute)")
+    if renames:
+        for mod in repo.hand_written():
+            for n in ast.walk(mod.tree):
+                if isinstance(n, ast.Attribute) and n.attr in renames:
+                    n.attr = renames[n.attr]
+    return log
+
+
+REFERENCE_CLASSES = set(json.loads(
+    (Path(__file__).parent / "reference_functions.json").read_text()
+).get("classes", []))
+
+
+def normalise_namedtuples(repo: Repo) -> list[str]:
+    """A NamedTuple class that does not exist in the reference tree is a
+    bare tuple somebody gave names to: constructor calls become tuples (in
+    field order) and `x.field` reads become `x[i]`, so rules keep seeing the
+    tuple."""
+    log: list[str] = []
+    for mod in repo.hand_written():
+        new_nt: dict[str, list[tuple[str, ast.AST | None]]] = {}
+        for ci in mod.classes.values():
+            if ci.fq in REFERENCE_CLASSES:
+                continue
+            bases = [dotted(b) or "" for b in ci.node.bases]
+            if not any(b.endswith("NamedTuple") for b in bases):
+                continue
+            fields = [(st.target.id, st.value) for st in ci.node.body
+                      if isinstance(st, ast.AnnAssign) and
+                      isinstance(st.target, ast.Name)]
+            if fields and not ci.methods:
+                new_nt[ci.name] = fields
+        if not new_nt:
+            continue
+        all_fields = {f for fl in new_nt.values() for f, _ in fl}
+        field_index = {}
+        for cname, fl in new_nt.items():
+            for i, (f, _) in enumerate(fl):
+                field_index.setdefault(f, set()).add(i)
+
+        class T(ast.NodeTransformer):
+
+            def visit_Call(self, node: ast.Call):
+                self.generic_visit(node)
+                name = dotted(node.func)
+                if name in new_nt and not any(
+                        isinstance(a, ast.Starred) for a in node.args) and \
+                        all(k.arg for k in node.keywords):
+                    fl = new_nt[name]
+                    vals: list[ast.AST | None] = [None] * len(fl)
+                    for i, a in enumerate(node.args[:len(fl)]):
+                        vals[i] = a
+                    for k in node.keywords:
+                        for i, (f, _) in enumerate(fl):
+                            if f == k.arg:
+                                vals[i] = k.value
+                    for i, (f, dflt) in enumerate(fl):
+                        if vals[i] is None:
+                            vals[i] = _clone(dflt) if dflt is not None else None
+                    if all(v is not None for v in vals):
+                        return ast.copy_location(
+                            ast.Tuple(elts=vals, ctx=ast.Load()), node)
+                return node
+
+            def visit_Attribute(self, node: ast.Attribute):
+                self.generic_visit(node)
+                p = parent(node)
+                if isinstance(node.ctx, ast.Load) and node.attr in all_fields \
+                        and len(field_index[node.attr]) == 1 and isinstance(
+                            node.value, ast.Name) and node.value.id not in (
+                                "self", "cls") and not (
+                                    isinstance(p, ast.Call) and p.func is node):
+                    i = next(iter(field_index[node.attr]))
+                    return ast.copy_location(ast.Subscript(
+                        value=node.value, slice=ast.Constant(value=i),
+                        ctx=ast.Load()), node)
+                return node
+
+        T().visit(mod.tree)
+        ast.fix_missing_locations(mod.tree)
+        log.append(f"{mod.name}: NamedTuple {sorted(new_nt)} read as tuples")
+    return log
+
+
 def normalise(repo: Repo, resolver_factory, max_rounds: int = 3):
     """Return (repo', log): repo with non-reference helpers inlined."""
     log: list[str] = []
+    rlog = normalise_renames(repo) + normalise_namedtuples(repo)
+    if rlog:
+        log += rlog
+        repo = Repo(root=repo.root, overlay=repo.overlay, trees={
+            name: mod.tree for name, mod in repo.modules.items()})
     from sa.dispatch import normalise_dispatch
     dlog: list[str] = []
     for name, mod in repo.modules.items():
@@ -555,7 +718,8 @@ def normalise(repo: Repo, resolver_factory, max_rounds: int = 3):
             name: mod.tree for name, mod in repo.modules.items()})
     for _ in range(max_rounds):
         new_fns = [f for f in repo.all_functions(hand_written=True)
-                   if not is_reference(f) and not isinstance(f.node, ast.Lambda)]
+                   if (not is_reference(f) or f.fq in FORCE_INLINE) and
+                   not isinstance(f.node, ast.Lambda)]
         if not new_fns:
             break
         res = resolver_factory(repo)
